@@ -569,6 +569,9 @@ func ruleC12(c *Ctx) {
 			okFlow := true
 			for _, e := range t.St.events {
 				if e.Kind == EvCall && e.Seq > fl.Seq && directArg(e, flv.Key()) && e != lim {
+					if sn := shortName(e.Callee); sn == "(io.ReadCloser).Close" || sn == "(io.Closer).Close" {
+						continue // closing the decompressor reads nothing
+					}
 					okFlow = false
 					c.bad("C12-R2", fname, "decompressor consumed by "+shortName(e.Callee), c.P.InstrPos(e.Instr), "the decompressor is read by "+shortName(e.Callee)+" without going through the limited reader")
 				}
